@@ -179,6 +179,51 @@ def run(ctx):
         lay.kernel.assign(np.repeat(np.array([[0.0], [0.0], [1.0], [1.0]]), lay.kernel.shape[1], axis=1).astype(np.float32))
   except Exception as ex:  # pylint: disable=broad-except
     ctx.notes.append("RTL delegation case not run: %r" % (ex,))
+  # RTL with output bounds (also bounds equal to 0 and one-sided ones) and mixed inputs: a bound or monotonicity
+  # violation in ANY of its lattice groups - the all-unconstrained one included - and in any unit must be reported
+  for omin, omax in ((0.0, None), (None, 0.0), (0.25, None), (0.0, 1.0), (None, None)):
+    for seed in ((3, 5) if ctx.quick else (1, 2, 3, 5, 8)):
+      try:
+        rtl = tfl.layers.RTL(num_lattices=6, lattice_rank=2, lattice_size=2, output_min=omin, output_max=omax, random_seed=seed)
+        rtl.build({"unconstrained": (None, 3), "increasing": (None, 3)})
+        rtl({"unconstrained": tf.zeros((1, 3)), "increasing": tf.zeros((1, 3))})
+      except Exception as ex:  # pylint: disable=broad-except
+        ctx.notes.append("RTL bound case not built: %r" % (ex,))
+        continue
+      lo = omin if omin is not None else (omax - 1.0 if omax is not None else 0.0)
+      hi = omax if omax is not None else lo + 1.0
+      mid = (lo + hi) / 2.0
+      groups = list(rtl._lattice_layers.items())
+      for key, lay in groups:
+        monos = [int(v) for v in key.strip("()[] ").replace(" ", "").split(",") if v != ""]
+        units = int(lay.kernel.shape[1])
+        feasible = np.full((4, units), mid, dtype=np.float32)
+        c = dict(latcfg.base([2, 2]))
+        c.update({"kind": "lattice", "mono": monos, "hasMin": omin is not None, "omin": latcfg.rat(Fraction(omin or 0.0)),
+                  "hasMax": omax is not None, "omax": latcfg.rat(Fraction(omax or 0.0))})
+        c.pop("iters"), c.pop("strict")
+        injections = [("none", None)]
+        if omin is not None:
+          injections.append(("below", omin - 0.5))
+        if omax is not None:
+          injections.append(("above", omax + 0.5))
+        for what, val in injections:
+          for u in (range(units) if what != "none" else [0]):
+            for other_key, other in groups:
+              other.kernel.assign(np.full(other.kernel.shape, mid, dtype=np.float32))
+            K = feasible.copy()
+            if val is not None:
+              K[int(rng.integers(0, 4)), u] = val
+            lay.kernel.assign(K)
+            try:
+              rtl.assert_constraints(eps=1e-3)
+              oc = "pass"
+            except tf.errors.InvalidArgumentError:
+              oc = "fail"
+            events.append({"ev": "Assert", "cfg": c, "den": 4000, "w": [int(round(float(v) * 4000)) for v in K[:, u]], "eps": [1, 1000],
+                           "outcome": oc, "site": {"layer": "rtl", "group": key},
+                           "call": {"rtl": True, "omin": omin, "omax": omax, "seed": seed, "group": key, "unit": u, "w": K[:, u].tolist()}})
+            ctx.count(1, nontrivial_key=("rtl", omin, omax, seed, key, what, u))
   ctx.validate("TraceAssert", events)
   return ctx.finish()
 
